@@ -1,4 +1,4 @@
-(* C07 - Seeded searches are reproducible.  MODEL (no proofs here; describes /repo at 5f31b5a).
+(* C07 - Seeded searches are reproducible.  MODEL (no proofs here; describes /repo at 966138d).
 
    Two layers.
 
